@@ -512,6 +512,22 @@ func (f *freshCtx) escapes(v ssa.Value, seen map[ssa.Value]bool) string {
 				return "sent on a channel at " + f.p.InstrPos(t)
 			}
 		case *ssa.MakeClosure:
+			// a closure handed straight to a module function that only calls it (a synchronous "for each"
+			// helper) does not outlive the call: what it does with the captured variable is what counts
+			if cf, ok := t.Fn.(*ssa.Function); ok && f.syncCallbackOnly(t) {
+				bad := ""
+				for i, b := range t.Bindings {
+					if b == v && i < len(cf.FreeVars) {
+						if e := f.escapes(cf.FreeVars[i], seen); e != "" {
+							bad = e
+						}
+					}
+				}
+				if bad != "" {
+					return bad
+				}
+				continue
+			}
 			return "captured by a closure at " + f.p.InstrPos(t)
 		case ssa.CallInstruction:
 			cc := t.Common()
@@ -580,4 +596,47 @@ func (f *freshCtx) escapes(v ssa.Value, seen map[ssa.Value]bool) string {
 		}
 	}
 	return ""
+}
+
+// syncCallbackOnly: the closure mc is used only as an argument of static calls
+// of module functions whose corresponding parameter is only ever called (never
+// stored, passed on, deferred or started as a goroutine).
+func (f *freshCtx) syncCallbackOnly(mc *ssa.MakeClosure) bool {
+	refs := mc.Referrers()
+	if refs == nil || len(*refs) == 0 {
+		return false
+	}
+	for _, r := range *refs {
+		switch t := r.(type) {
+		case *ssa.DebugRef:
+		case *ssa.Call:
+			h := t.Call.StaticCallee()
+			if h == nil || t.Call.IsInvoke() || !f.p.InModuleFn(h) || h.Blocks == nil {
+				return false
+			}
+			for i, av := range t.Call.Args {
+				if av != ssa.Value(mc) {
+					continue
+				}
+				if i >= len(h.Params) {
+					return false
+				}
+				pr := h.Params[i]
+				for _, pref := range *pr.Referrers() {
+					switch u := pref.(type) {
+					case *ssa.DebugRef:
+					case *ssa.Call:
+						if u.Call.Value != ssa.Value(pr) {
+							return false
+						}
+					default:
+						return false
+					}
+				}
+			}
+		default:
+			return false
+		}
+	}
+	return true
 }
